@@ -447,7 +447,12 @@ def split_family(seed, n_seq):
         # formulas outside the fragment are rejected
         outside = [r'[] [] p', r'[] <> [] p', r'<> p', r'[] (p => <> q)', r'(<> [] p) /\ (<> [] q)',
                    r'<> [] <> p', r'(X p)', r'[] <> (X p)', r'<> [] (p /\ X q)',
-                   r'([] <> p) => ([] <> q)', r'~ [] p', r'[] (x > 0) \/ [] (y > 0)']
+                   r'([] <> p) => ([] <> q)', r'~ [] p', r'[] (x > 0) \/ [] (y > 0)',
+                   # two Streett pairs, in both orders; a disjunction of recurrence formulas
+                   r'([] <> q) /\ ((<> [] p) \/ ([] <> (x > 0)))', r'((<> [] p) \/ ([] <> (x > 0))) /\ ([] <> q)',
+                   r'([] <> p) \/ ([] <> q)', r'(<> [] p) \/ ([] <> q) \/ ([] <> (x > 0))',
+                   r'((<> [] p) \/ ([] <> q)) /\ ((<> [] (x > 0)) \/ ([] <> q))',
+                   r'(<> [] p) /\ ([] <> q)']
         for text in outside:
             n += 1
             try:
